@@ -338,6 +338,17 @@ def h_hash(ctx: Any, low: bool) -> None:
     ctx.cover('hashed')
 
 
+CLASS_TABLE = {
+    # hand class: (lookup class, card_count, board_card_count, hole_card_count) by the documentation
+    'StandardHighHand': ('StandardLookup', 5, None, None), 'StandardLowHand': ('StandardLookup', 5, None, None),
+    'ShortDeckHoldemHand': ('ShortDeckHoldemLookup', 5, None, None),
+    'EightOrBetterLowHand': ('EightOrBetterLookup', 5, None, None), 'RegularLowHand': ('RegularLookup', 5, None, None),
+    'GreekHoldemHand': ('StandardLookup', 5, 3, None), 'OmahaHoldemHand': ('StandardLookup', 5, 3, 2),
+    'OmahaEightOrBetterLowHand': ('EightOrBetterLookup', 5, 3, 2), 'BadugiHand': ('BadugiLookup', None, None, None),
+    'StandardBadugiHand': ('StandardBadugiLookup', None, None, None), 'KuhnPokerHand': ('KuhnPokerLookup', None, None, None),
+}
+
+
 def low_flags() -> dict:
     import inspect
     import pokerkit.hands as H
@@ -351,6 +362,11 @@ def low_flags() -> dict:
             seen += 1
             if cls.low is not LOW_BY_DOC[name]:
                 bad.append(name)
+            lk, cc, bc, hc = CLASS_TABLE[name]
+            got = (type(cls.lookup).__name__, getattr(cls, 'card_count', None), getattr(cls, 'board_card_count', None),
+                   getattr(cls, 'hole_card_count', None))
+            if got != (lk, cc, bc, hc):
+                bad.append(f'{name}: {got} documented {(lk, cc, bc, hc)}')
     if bad:
         return dict(status='violation', kind='low-flag', detail=str(bad),
                     replay={'values': {'classes': bad}, 'outcome': 'viol'})
